@@ -1,6 +1,7 @@
 use std::convert::TryFrom;
 use std::fmt;
 
+use crate::attribute::AttributePairs;
 use crate::types::{DecryptionKey, ProtocolVersion};
 use crate::utils::tag;
 use crate::{Error, RequiredVersion};
@@ -208,7 +209,21 @@ impl<'a> TryFrom<&'a str> for ExtXKey<'a> {
     fn try_from(input: &'a str) -> Result<Self, Self::Error> {
         let input = tag(input, Self::PREFIX)?;
 
-        if input.trim() == "METHOD=NONE" {
+        // `METHOD=NONE` stands alone (rfc8216 4.3.2.4); white space around the
+        // attribute and attributes a client has to ignore (rfc8216 6.3.1) do
+        // not change that.
+        let mut is_none = false;
+        let mut stands_alone = true;
+
+        for (key, value) in AttributePairs::new(input) {
+            match key {
+                "METHOD" if value == "NONE" => is_none = true,
+                "METHOD" | "URI" | "IV" | "KEYFORMAT" | "KEYFORMATVERSIONS" => stands_alone = false,
+                _ => {}
+            }
+        }
+
+        if is_none && stands_alone {
             Ok(Self(None))
         } else {
             Ok(DecryptionKey::try_from(input)?.into())
